@@ -42,6 +42,10 @@ def gen_case(rng, i):
     c = {"id": i, "kind": "c19", "op": op, "a": a, "graded": bool(rng.integers(2)), "reverse": bool(rng.integers(2))}
     if op == "set_dimensions":
         c["dims"] = int(rng.integers(1, 6))
+    if op in ("isconstant", "tonumpy"):
+        # "is constant" is a statement about the polynomial, whatever the retain options in force at the call
+        # (seeded change C19-10: isconstant through clean_attributes, which reads the global option)
+        c["opts"] = {"retain_coefficients": bool(rng.integers(2)), "retain_names": bool(rng.integers(2))}
     return c
 
 
@@ -147,12 +151,14 @@ def check(ctx, c, model, monitor=None):
                 if s["shape"] != [] or dg not in cands:
                     ctx.fail(c, f"{op} returned {den_key(dg)} which is not an extreme element {[den_key(x) for x in cands][:3]}", tags)
         elif op == "isconstant":
-            got = call(numpoly.isconstant, p)
+            with numpoly.global_options(**c.get("opts", {})):
+                got = call(numpoly.isconstant, p)
             if bool(got) != model["value"]:
-                ctx.fail(c, f"isconstant {got}, exact {model['value']}", tags)
+                ctx.fail(c, f"isconstant {got}, exact {model['value']} (options at the call: {c.get('opts')})", tags)
         elif op == "tonumpy":
             try:
-                got = call(numpoly.tonumpy, p)
+                with numpoly.global_options(**c.get("opts", {})):
+                    got = call(numpoly.tonumpy, p)
             except numpoly.baseclass.FeatureNotSupported:
                 got = None
             if model["status"] == "err":
